@@ -151,7 +151,10 @@ def c08_1(cx):
     cx.require(n >= 14, "expected >= 14 unsynchronised-cell accesses in interned.rs, found %d" % n)
 
 
-def classify_access(cx, body, s, depth=0):
+def classify_access(cx, body, s, depth=0, assume=None):
+    """Why the access at site s is synchronised, or None.  `assume`: {param index of an enclosing
+    unsafe fn: bool value under which the access is reachable} (conditional contracts such as
+    entries_inner(should_lock))."""
     locks = [l for l in body.calls(LOCK) if body.site_dominates(l, s)]
     for l in locks:
         if guard_live_at(body, l, s):
@@ -161,18 +164,46 @@ def classify_access(cx, body, s, depth=0):
         return "&mut IngredientShard parameter"
     if any(t.startswith("&mut interned::IngredientImpl") or t.startswith("&mut interned::Value") for t in ins):
         return "&mut self"
-    if body.info.get("unsafe"):
-        return "unsafe fn: caller holds the lock"
     for rx, why in UNLOCKED_OK.items():
         if re.search(rx, body.path):
             return "documented: " + why
+    if body.info.get("unsafe") and body.kind != "Closure" and not re.match(r"^<.* as ingredient::Ingredient>::", body.path) and depth < 3:
+        # an inherent `unsafe fn` (contract: the caller holds the lock) - the contract is checked at
+        # every caller in the crate.  Methods of the `Ingredient` trait are NOT exempt: their unsafe
+        # contract concerns the database pointer, not the shard lock, and their callers are dynamic.
+        callers = cx.facts.call_sites_of("^" + re.escape(body.path) + "$")
+        whys = []
+        for c in callers:
+            skip = False
+            for pi, val in (assume or {}).items():
+                a = cx.arg(c, pi - 1)
+                if a in ("const:0", "const:1") and (a == "const:1") != val:
+                    skip = True  # this caller never reaches the access (e.g. entries_inner(true, ..))
+            if skip:
+                whys.append("caller passes the flag under which the access is not reached")
+                continue
+            whys.append(classify_access(cx, c.body, c, depth + 1))
+        if all(whys):
+            return "unsafe fn whose contract requires the lock; %d caller(s) checked: %s" % (len(callers), "; ".join(sorted(set(whys))) or "no caller in this configuration")
+        return None
     if body.kind == "Closure" and depth < 3:
         parent = cx.facts.body(body.info["parent"])
         if parent is not None:
             for cs in parent.aggregates(r".*"):
                 rv = cs.node()["rv"]
                 if rv.get("ak") == "closure" and rv.get("def") == body.path:
-                    w = classify_access(cx, parent, cs, depth + 1)
+                    # flags captured from the parent's parameters under which s is reachable
+                    asm = {}
+                    eng = OnlyIf(cx.facts, body)
+                    for ci, op in enumerate(rv.get("ops", [])):
+                        po = parent.origin_op(op, 0, None, cs)
+                        m = re.match(r"^\$(\d+)$", po)
+                        if not m:
+                            continue
+                        for val in (False, True):
+                            if eng.guarded(s, BoolIs(r"^\$1\.%d$" % ci, val)):
+                                asm[int(m.group(1))] = val
+                    w = classify_access(cx, parent, cs, depth + 1, asm)
                     if w:
                         return "closure created where: " + w
     return None
